@@ -192,6 +192,30 @@ pub fn mut_scenario(o: &MutOpts, prefix: &str) -> Scenario {
         alpha.retain(|op| !matches!(op, Op::Fill { .. }));
     }
     let mut sc = Scenario::new(&mut_name(o, prefix), cfg, mut_prelude(), alpha, o.depth);
+    if matches!(o.alphabet, Alpha::Mutate | Alpha::MutateFail) && o.free.is_none() {
+        // a new directory filled past its first block and first cluster (15+ creates: far beyond the BFS depth),
+        // then thinned out again
+        let mut script = vec![Op::Mkdir { d: 0, name: 7 }, Op::OpenDir { p: 0, name: 7, d: 2 }];
+        let names: [u8; 19] = [0, 1, 2, 3, 4, 13, 16, 17, 18, 19, 20, 21, 22, 23, 24, 25, 26, 5, 6];
+        let count = if g.spc >= 4 { 19 } else { 17 };
+        for &n in names.iter().take(count) {
+            script.push(Op::Open { d: 2, name: n, mode: M_CREATE, f: 0 });
+            if n == 2 || n == 23 {
+                script.push(Op::Write { f: 0, n: g.cluster_bytes() + 1 });
+            }
+            script.push(Op::Close { f: 0 });
+        }
+        script.push(Op::List { d: 2 });
+        for n in [0u8, 23, 2] {
+            script.push(Op::Delete { d: 2, name: n });
+        }
+        script.push(Op::Open { d: 2, name: 0, mode: M_CREATE, f: 0 });
+        script.push(Op::Close { f: 0 });
+        script.push(Op::Mkdir { d: 2, name: 7 });
+        script.push(Op::List { d: 2 });
+        script.push(Op::CloseDir { d: 2 });
+        sc.scripts.push(("fill-new-directory".into(), script));
+    }
     // canonical file slot: an Open may only use the lowest free file slot
     sc.tag = Some(std::sync::Arc::new((o.clone(), prefix.to_string())));
     sc.filter = Some(Box::new(|w: &World, op: &Op| match op {
